@@ -69,6 +69,9 @@ func runHist(ch *simrt.Chooser, opt Options) RunResult {
 	if _, ok := weights["TimePasses"]; !ok {
 		weights["TimePasses"] = 1
 	}
+	if _, ok := weights["Sandwich"]; !ok {
+		weights["Sandwich"] = 4
+	}
 	var table []histOp
 	var cum []int
 	total := 0
@@ -83,7 +86,7 @@ func runHist(ch *simrt.Chooser, opt Options) RunResult {
 	res.Counters["keyorder:"+cfg.KeyOrder.String()]++
 	res.Config = map[string]any{"ops": opt.Prop, "steps": steps, "policy": cfg.Policy.String(), "key_order": cfg.KeyOrder.String()}
 
-	h := &Hist{prop: opt.Prop, byPtr: map[uintptr]*Node{}, rel: map[[2]int]string{}, cloneTags: map[int][]int{}, counters: res.Counters,
+	h := &Hist{prop: opt.Prop, byPtr: map[uintptr]*Node{}, rel: map[[2]int]string{}, cloneTags: map[int][]int{}, hintIndex: -1, counters: res.Counters,
 		derivedOK: opt.Prop == "C19" || opt.Prop == "C13" || opt.Prop == "C08" || opt.Prop == "C11", maxSlots: 16, maxNodes: 32}
 	switch ch.Draw("size-class", 12) {
 	case 0, 1:
@@ -207,6 +210,8 @@ func (h *Hist) snapshotSafe(ok bool) uint64 {
 }
 
 func init() {
+	histOps = append(histOps, histOp{"Sandwich", opSandwich})
+	histOpsRef = histOps
 	engines["hist"] = runHist
 }
 
